@@ -404,3 +404,24 @@ Proof.
   unfold c06_segments_verdict, seg_walk in H. unfold c13_segments_rsv.
   exact (seg_walk_with_impl _ _ c06_monitor_rsv _ _ _ _ _ _ _ _ H).
 Qed.
+
+(* ... in particular from every constructor, with the extensions attached first *)
+Theorem constructors_c06_segments ops state op n masks exts w00 :
+  (new_writer_buffer dnil state op n masks = inr w00 \/ new_writer_buffer_size dnil state op n masks = inr w00 \/
+   new_writer_size dnil state op n masks = inr w00) ->
+  n + 14 <= max_int -> op < 16 -> Forall wf_key masks -> (exts = [] \/ exists c, exts = [c]) ->
+  Forall seg_op ops -> 28 + 4 * ops_cost ops <= max_int ->
+  let w := set_extensions exts w00 in
+  set_ext_at_rest ops w ->
+  c06_segments_monitor (client_side state) op exts (w_buflen w)
+    (steps_of ops (fst (run_wops ops w))) (dest_log (w_dest (snd (run_wops ops w)))) = true.
+Proof.
+  intros Hn Hmax Ho Hm Hx Hops Hbud w Hrest.
+  destruct (constructors_nwb _ _ _ _ _ _ Hn Hmax) as (rawlen & Hr & Hnwb).
+  pose proof (new_writer_buffer_inv _ _ _ _ _ _ Hr Hnwb) as [A1 A2 A3 A4 A5].
+  destruct (new_writer_buffer_fresh _ _ _ _ _ _ Hnwb) as (E1 & E2 & E3 & E4 & E5 & E6 & E7 & E8 & E9 & E10).
+  pose proof (c06_segments_hold ops w) as H. subst w. wsimpl. rewrite E2, E3 in H. apply H; try assumption.
+  - constructor; assumption.
+  - constructor; wsimpl; try assumption; rewrite E1; reflexivity.
+  - unfold masks_ok. wsimpl. rewrite E10. assumption.
+Qed.
